@@ -9,13 +9,18 @@ import sys
 import time
 
 VERIF = os.path.dirname(os.path.dirname(os.path.abspath(__file__)))
-REPO = "/repo"
+# The registered checks always run against /repo.  For trying seeded changes in parallel without touching /repo,
+# VERIF_REPO may name a scratch copy; the harness is then built in a private directory and evidence / replays go
+# to VERIF_OUT (never to /verif/evidence).
+REPO = os.environ.get("VERIF_REPO", "/repo")
+_OUT = os.environ.get("VERIF_OUT")
 COQ = os.path.join(VERIF, "coq")
 MODELRUN_DIR = os.path.join(VERIF, "modelrun")
 MODELRUN = os.path.join(MODELRUN_DIR, "modelrun")
-HARNESS_DIR = os.path.join(VERIF, "harness")
-EVIDENCE = os.path.join(VERIF, "evidence")
-REPLAYS = os.path.join(VERIF, "replays")
+HARNESS_SRC = os.path.join(VERIF, "harness")
+HARNESS_DIR = HARNESS_SRC if REPO == "/repo" else os.path.join(_OUT or "/tmp/verif_scratch", "harness")
+EVIDENCE = os.path.join(_OUT, "evidence") if _OUT else os.path.join(VERIF, "evidence")
+REPLAYS = os.path.join(_OUT, "replays") if _OUT else os.path.join(VERIF, "replays")
 CORPUS = os.path.join(VERIF, "corpus")
 GUARD = "pricelevel_verif"
 W = 1 << 64
@@ -85,8 +90,14 @@ def harness_bin(profile="debug"):
 
 def build_harness(profile="debug"):
     """Rebuilds the harness against /repo's current working tree with the hook guard on."""
-    with Lock("cargo"):
-        lock_src = os.path.join(REPO, "Cargo.lock")
+    if HARNESS_DIR != HARNESS_SRC:
+        # private copy of the harness sources pointing at the scratch repository
+        os.makedirs(HARNESS_DIR, exist_ok=True)
+        sh("rsync -a --exclude target --exclude Cargo.lock %s/ %s/" % (HARNESS_SRC, HARNESS_DIR))
+        ct = open(os.path.join(HARNESS_SRC, "Cargo.toml")).read().replace('path = "/repo"', 'path = "%s"' % REPO)
+        open(os.path.join(HARNESS_DIR, "Cargo.toml"), "w").write(ct)
+    with Lock("cargo" if HARNESS_DIR == HARNESS_SRC else "cargo_" + str(abs(hash(HARNESS_DIR)))):
+        lock_src = os.path.join("/repo", "Cargo.lock")
         lock_dst = os.path.join(HARNESS_DIR, "Cargo.lock")
         if not os.path.exists(lock_dst):
             sh(["cp", lock_src, lock_dst])
